@@ -4,12 +4,53 @@
 use crate::program::Op;
 use crate::sim::Sim;
 
+/// C01/C06: a long history of reuses of one slot; stale tokens younger than 65536 reuses
+/// must stay dead.
+fn slot_churn(sim: &Sim, n: u32) {
+    use calloop::timer::{TimeoutAction, Timer};
+    let Some(h) = sim.st.borrow().handle.clone() else { return };
+    if sim.hk.borrow().in_dispatch {
+        return;
+    }
+    let mut hist: std::collections::VecDeque<calloop::RegistrationToken> = std::collections::VecDeque::new();
+    let before = h.verif_stats().occupied_slots;
+    for i in 0..n {
+        let t = match h.insert_source(Timer::from_duration(std::time::Duration::from_secs(3600)), |_, _, _: &mut crate::sim::Tag| TimeoutAction::Drop) {
+            Ok(t) => t,
+            Err(_) => return,
+        };
+        for age in [1usize, 255, 256, 4095, 65535] {
+            if hist.len() >= age {
+                let old = hist[hist.len() - age];
+                let r = h.enable(&old);
+                if !matches!(r, Err(calloop::Error::InvalidToken)) {
+                    sim.violate("token.stale_not_rejected", vec!["slot_churn".into(), format!("age={}", age)], format!("after {} reuses of one slot, enable() with the token issued {} reuses ago returned {:?}", i, age, r.map_err(|e| e.to_string())));
+                    return;
+                }
+                h.remove(old);
+                if h.verif_stats().occupied_slots != before + 1 {
+                    sim.violate("token.stale_had_effect", vec!["slot_churn".into(), format!("age={}", age)], format!("remove() with the token issued {} reuses ago removed the current occupant of the slot", age));
+                    return;
+                }
+            }
+        }
+        h.remove(t);
+        hist.push_back(t);
+        if hist.len() > 65535 {
+            hist.pop_front();
+        }
+    }
+    sim.probe("slot_churn");
+    sim.rule_ok(&["C01", "C06"], 16);
+}
+
 pub fn exec_op2(sim: &Sim, op: &Op, _in_cb: bool) {
     match op {
         Op::InsertLifecycle { id, with_ping, synth, script, .. } => crate::life::insert_lifecycle(sim, *id, *with_ping, synth, script),
         Op::InsertExecutor { id, script } => crate::exec::insert_executor(sim, *id, script),
         Op::Schedule { exec, task, pendings, script } => crate::exec::schedule(sim, *exec, *task, *pendings, script),
         Op::Wake(t) => crate::exec::wake(sim, *t),
+        Op::SlotChurn(n) => slot_churn(sim, *n),
         Op::InsertComposite { id, children, script } => crate::composite::insert_composite(sim, *id, children, script),
         Op::PingChild(..) | Op::DropChildPing(..) | Op::PeerWriteChild(..) => crate::composite::child_op(sim, op),
         Op::SigNew { id, sigs, script } => crate::sig::sig_new(sim, *id, sigs, script),
